@@ -37,6 +37,7 @@ var c12Hosts = []c12Named{
 	{"mixed-case", "EXAMPLE.com"},
 	{"different", "evil.org"},
 	{"different-t", "tevil.org"}, // differs from "evil.org" by a leading letter of "https://"
+	{"different-g", "gevil.org"}, // "evil.or"+"gevil.org" reads like "evil.org"+"evil.org"
 	{"prefix", "example.co"},
 	{"suffix-lookalike", "notexample.com"},
 	{"host-as-prefix", "example.com.evil.org"},
@@ -70,7 +71,8 @@ var c12Patterns = []struct {
 	{"second-of-two", []string{"nomatch.invalid", "evil.org"}},
 	{"exact-t-prefixed", []string{"tevil.org"}}, // first letter is one of h,t,p,s
 	{"exact-scheme-chars", []string{"sph.tevil.org"}},
-	{"with-scheme", []string{"https://evil.org"}}, // a pattern is a host pattern, not a URL
+	{"with-scheme", []string{"https://evil.org"}},    // a pattern is a host pattern, not a URL
+	{"prefix-pair", []string{"evil.or", "evil.org"}}, // one pattern is a prefix of the other
 	{"malformed", []string{"["}},
 }
 
@@ -79,15 +81,18 @@ var c12Special = []struct {
 	Kind   string
 	Absent bool
 	Value  string
+	Second string // a second Origin line (Value is then a well-formed origin naming evil.org)
 }{
-	{"absent", true, ""},
-	{"null", false, "null"},
-	{"schemeless-host", false, "example.com"},
-	{"schemeless-other", false, "evil.org"},
-	{"schemeless-host-port", false, "example.com:8080"},
-	{"empty", false, ""},
-	{"scheme-only", false, "https://"},
-	{"empty-authority-path-host", false, "https:///example.com"},
+	{"two-lines-foreign-then-same-host", false, "https://evil.org", "https://example.com"},
+	{"two-lines-foreign-then-empty", false, "https://evil.org", " "},
+	{"absent", true, "", ""},
+	{"null", false, "null", ""},
+	{"schemeless-host", false, "example.com", ""},
+	{"schemeless-other", false, "evil.org", ""},
+	{"schemeless-host-port", false, "example.com:8080", ""},
+	{"empty", false, "", ""},
+	{"scheme-only", false, "https://", ""},
+	{"empty-authority-path-host", false, "https:///example.com", ""},
 }
 
 type c12Case struct {
@@ -100,6 +105,14 @@ type c12Case struct {
 	Origin     handshake.Origin `json:"origin"`
 	Patterns   []string         `json:"patterns"`
 	SkipVerify bool             `json:"skip_verify"`
+	// SecondOrigin: a further Origin header line after the one described above
+	// (the request is judged by the first line, as the first value of a header is
+	// what names "the" origin; a request whose first line is authorised and whose
+	// second is not is left out as unconstrained)
+	SecondOrigin string `json:"second_origin,omitempty"`
+	// History: "asc"/"desc" when the case was run as part of a pass over all cases
+	// of its pattern set in that order (a replay re-runs the pass up to the case)
+	History string `json:"history,omitempty"`
 	// abstract labels, used only for class strings
 	HostKind, UserKind, TailKind, PatternKind string
 }
@@ -134,6 +147,11 @@ func c12Decode(idx int) c12Case {
 		cs.NoOrigin, cs.Hostless, cs.Raw = sp.Absent, !sp.Absent, sp.Value
 		cs.Patterns, cs.PatternKind, cs.SkipVerify = p.Set, p.Kind, skip == 1
 		cs.HostKind, cs.UserKind, cs.TailKind = "special:"+sp.Kind, "none", "none"
+		if sp.Second != "" {
+			cs.Hostless = false
+			cs.Origin = handshake.Origin{Scheme: "https", Host: "evil.org"}
+			cs.SecondOrigin = sp.Second
+		}
 		return cs
 	}
 	x := idx - c12SpecialN()
@@ -168,7 +186,17 @@ func c12ModelState(cs c12Case) string {
 	return fmt.Sprintf("%s/%s/%s/%s/%s/%s", v, why, cs.HostKind, cs.UserKind, cs.TailKind, cs.PatternKind)
 }
 
-func c12One(c *fw.Ctx, cs c12Case) {
+func c12PatternIndex(kind string) int {
+	for i, p := range c12Patterns {
+		if p.Kind == kind {
+			return i
+		}
+	}
+	return 0
+}
+
+// c12One replays one case and reports whether the request was upgraded.
+func c12One(c *fw.Ctx, cs c12Case) (upgraded bool) {
 	c.Eval()
 	c.AddTraces(1)
 	c.AddTransitions(1)
@@ -185,6 +213,10 @@ func c12One(c *fw.Ctx, cs c12Case) {
 	}
 	if !cs.NoOrigin {
 		hdr["Origin"] = []string{raw}
+		if cs.SecondOrigin != "" {
+			// a second Origin header line that is authorised on its own
+			hdr["Origin"] = []string{raw, cs.SecondOrigin}
+		}
 	}
 	r := c11Request("GET", "HTTP/1.1", 1, 1, cs.reqHost(), hdr)
 	w := c11NewWriter()
@@ -203,6 +235,7 @@ func c12One(c *fw.Ctx, cs c12Case) {
 	defer c11Finish(w, conn)
 
 	accepted := conn != nil
+	upgraded = accepted
 	desc := c12Describe(cs, raw)
 	if !accepted && w.hijacks != 0 {
 		c.Violate("C12/hijacked-on-refusal", fmt.Sprintf("%s: Accept returned no connection (err=%v) but called Hijack %d time(s)", desc, err, w.hijacks), cs)
@@ -242,6 +275,7 @@ func c12One(c *fw.Ctx, cs c12Case) {
 		obs = "accepted"
 	}
 	c.OutcomeStr(fmt.Sprintf("%s/%s %s %d %s/%s/%s/%s", verdict, why, obs, w.status, cs.HostKind, cs.UserKind, cs.TailKind, cs.PatternKind))
+	return
 }
 
 func c12Describe(cs c12Case, raw string) string {
@@ -283,27 +317,44 @@ func c12Run(c *fw.Ctx, shard, nshards int) {
 	total := c12Total()
 	states := map[string]struct{}{}
 	verdicts := map[string]int{}
+	// Cases that share a pattern set run in the same process, once in ascending
+	// and once in descending order: whatever the library remembers from earlier
+	// handshakes (the decision for a request must not depend on history) shows up
+	// as a verdict that differs between the two passes or from the model.
+	var mineIdx []int
 	for i := 0; i < total; i++ {
-		mine := i%nshards == shard
-		if !mine && shard != 0 {
-			continue
-		}
 		cs := c12Decode(i)
 		if shard == 0 {
 			states[c12ModelState(cs)] = struct{}{}
 			v, _ := cs.model().Decide()
 			verdicts[v.String()]++
 		}
-		if !mine {
-			continue
+		if c12PatternIndex(cs.PatternKind)%nshards == shard {
+			mineIdx = append(mineIdx, i)
 		}
-		if i&255 == 0 && c.OutOfTime() {
-			c.NotExhaustive(fmt.Sprintf("time budget reached at case %d of %d", i, total))
-			break
-		}
-		c12One(c, cs)
-		if c.WantSample() && (i/nshards)%2003 == 1500 {
-			c.Sample(cs)
+	}
+	accepted := map[int]bool{}
+	for pass := 0; pass < 2; pass++ {
+		for n := range mineIdx {
+			i := mineIdx[n]
+			if pass == 1 {
+				i = mineIdx[len(mineIdx)-1-n]
+			}
+			if n&255 == 0 && c.OutOfTime() {
+				c.NotExhaustive(fmt.Sprintf("time budget reached at case %d of %d (pass %d)", n, len(mineIdx), pass))
+				break
+			}
+			cs := c12Decode(i)
+			cs.History = [2]string{"asc", "desc"}[pass]
+			acc := c12One(c, cs)
+			if pass == 0 {
+				accepted[i] = acc
+				if c.WantSample() && n%2003 == 1500 {
+					c.Sample(cs)
+				}
+			} else if prev, ok := accepted[i]; ok && prev != acc {
+				c.Violate("C12/decision-depends-on-history/"+cs.HostKind+"/"+cs.PatternKind, fmt.Sprintf("%s: upgraded=%v when the cases were run in ascending order, upgraded=%v in descending order: the decision depends on earlier handshakes in the same process", c12Describe(cs, cs.Raw), prev, acc), cs)
+			}
 		}
 	}
 	c.AddStates(int64(len(states)))
@@ -328,6 +379,26 @@ func init() {
 			if json.Unmarshal(data, &cs) != nil {
 				c.EngineError("bad replay data")
 				return
+			}
+			if cs.History != "" {
+				// re-run the earlier cases of the pass quietly: they are the history
+				var idx []int
+				for i := 0; i < c12Total(); i++ {
+					if c12Decode(i).PatternKind == cs.PatternKind {
+						idx = append(idx, i)
+					}
+				}
+				quiet := fw.NewDebugCtx("C12")
+				for n := range idx {
+					i := idx[n]
+					if cs.History == "desc" {
+						i = idx[len(idx)-1-n]
+					}
+					if i == cs.Idx {
+						break
+					}
+					c12One(quiet, c12Decode(i))
+				}
 			}
 			c12One(c, cs)
 		},
